@@ -367,6 +367,34 @@ ADDED3 = {
            "every stream also with verbose library logging.",
     "C20": " Subscribers that unregister themselves in their callback; arbitrary interval fields in Tridonic reports.",
 }
+ADDED5 = {
+    # runner-level dimensions (DESIGN.md 8.20): they apply to every check
+    "*": " Runner: warnings from the library are errors; every shard starts with the library's logging at its most verbose "
+         "level.",
+    "C01": " The whole search runs once more under python -OO.",
+    "C03": " The whole search runs once more under python -OO.",
+    "C04": " Clones through every pickle protocol; every frame form for writes; the whole search once more under python -OO.",
+    "C05": " Iteration (also of a frame being written); non-integer initial data; pack_len by name; the whole search once "
+           "more under python -OO.",
+    "C06": " MASK is no marker for a garbled answer; the whole search once more under python -OO.",
+    "C10": " Empty short writes to read-only values; strings with white space.",
+    "C11": " TemperatureValue subclasses with their own offset; a decoded value never equals a flag.",
+    "C12": " Two serial drivers made without a table do not share one.",
+    "C13": " Device and instance in mixed int/object forms.",
+    "C15": " A stray byte on the idle LUBA line; sequences sleeping a second or longer; SCI ERROR status instead of the "
+           "confirmation.",
+    "C16": " A 24-bit command on hasseb is refused at once (watchdog); daliserver connection resets; ATX read timeouts; each "
+           "line's bus_traffic listener hears its own line (two drivers, reports in one loop pass).",
+    "C17": " Power-supply packets as the failing write; no second open while connected; loss family at 1800 examples per "
+           "shard plus regression replays of earlier catches.",
+    "C19": " An abandoned wait for a backward frame; the whole search once more under python -OO.",
+    "C20": " Hasseb queries answered with a framing error; 900 examples per shard plus regression replays; events of the "
+           "instances the table names; the serial table filled in place.",
+}
+for _k, _v in ADDED5.items():
+    for _kk in (list(CHECKS) if _k == "*" else [_k]):
+        if _kk in CHECKS:
+            CHECKS[_kk]["text"] = CHECKS[_kk]["text"] + _v
 ADDED4 = {
     "C01": " Decoding from other threads, re-entered decodes, warnings as errors, frames of application ForwardFrame "
            "subclasses, package-only import histories.",
